@@ -251,9 +251,12 @@ class _Generator(Generator):
     def format_bit_string_inner(self, checker):
         max_value = 2**checker.minimum - 1
         type_name = self.format_type_name(max_value, max_value)
-        type_length = self.value_length(max_value)
+        type_length = (checker.minimum + 7) // 8
 
-        if type_length <= 4:
+        if type_length == 0:
+            encode_lines = []
+            decode_lines = ['dst_p->{} = 0u;'.format(self.location_inner())]
+        elif type_length <= 4:
             encode_lines = [
                 'encoder_append_uint(encoder_p, (uint32_t)src_p->{}, {});'.format(
                     self.location_inner(),
